@@ -1,4 +1,4 @@
-#!/bin/sh
+#!/bin/bash
 # usage: mkprompt.sh Cnn ... : creates /tmp/wt-Cnn (scratch worktree of /repo HEAD) and /tmp/prompt-Cnn.txt
 for id in "$@"; do
   n=${id#C}; n=$((10#$n))
